@@ -1,3 +1,164 @@
 package main
 
-func (fe *FuncEnc) initMonitor(f *Frame) {}
+// Ghost event log (see spec/60_log.smt2) and the effect obligations E1-E3 of C06.
+
+import (
+	"go/token"
+	"go/types"
+	"strings"
+
+	"golang.org/x/tools/go/ssa"
+)
+
+const evalFuncName = "interpreter.Interpreter.eval"
+
+type logComp struct {
+	name string
+	sort Sort
+}
+
+var snapComps = []struct{ suffix, comp string }{
+	{"MD", "MD_Str_Val"}, {"MV", "MV_Str_Val"}, {"MC", "MC_Str_Val"}, {"EV", "E_Val"},
+	{"Out", "G_io_OutN"}, {"Err", "G_io_ErrN"}, {"Flag", "G_utils_HadRuntimeError"},
+}
+
+func logComps(e *Engine) []logComp {
+	out := []logComp{
+		{"LOG_N", SInt}, {"LOG_kind", arrSort(SInt, SInt)}, {"LOG_child", arrSort(SInt, SVal)}, {"LOG_env", arrSort(SInt, SInt)},
+		{"LOG_repl", arrSort(SInt, SBool)}, {"LOG_args", arrSort(SInt, SSlice)}, {"LOG_val", arrSort(SInt, SVal)},
+		{"LOG_sig", arrSort(SInt, SInt)}, {"LOG_err", arrSort(SInt, SVal)},
+		{"LOG_sigT", arrSort(SInt, SInt)}, {"LOG_sigLine", arrSort(SInt, SInt)}, {"LOG_sigVal", arrSort(SInt, SVal)},
+	}
+	for _, pp := range []string{"pre", "post"} {
+		for _, sc := range snapComps {
+			out = append(out, logComp{"LOG_" + pp + sc.suffix, arrSort(SInt, e.compSorts[sc.comp])})
+		}
+	}
+	return out
+}
+
+func (e *Engine) registerLogComps() {
+	e.compSorts["G_utils_HadRuntimeError"] = SBool
+	for _, lc := range logComps(e) {
+		e.compSorts[lc.name] = lc.sort
+	}
+}
+
+// isLoggedCall: a call whose execution is an event of the caller's log.
+func isLoggedCall(e *Engine, in ssa.Instruction) bool {
+	c, ok := in.(ssa.CallInstruction)
+	if !ok {
+		return false
+	}
+	cc := c.Common()
+	if cc.IsInvoke() {
+		if n, ok := cc.Value.Type().(*types.Named); ok && n.Obj().Name() == "Callable" && cc.Method.Name() == "Call" {
+			return true
+		}
+		return false
+	}
+	if callee := cc.StaticCallee(); callee != nil && e.fnames[callee] == evalFuncName {
+		return true
+	}
+	return false
+}
+
+func (e *Engine) hasLog(fn *ssa.Function) bool {
+	for _, b := range fn.Blocks {
+		for _, in := range b.Instrs {
+			if isLoggedCall(e, in) {
+				return true
+			}
+		}
+	}
+	return false
+}
+
+func (fe *FuncEnc) initMonitor(f *Frame, st *State) {
+	if !fe.eng.hasLog(f.fn) {
+		return
+	}
+	f.mon = &MonitorCtx{}
+	st.heap["LOG_N"] = tInt(0)
+}
+
+func (fe *FuncEnc) snapshot(st *State, which string, k Term) {
+	for _, sc := range snapComps {
+		cur := fe.comp(st, sc.comp, fe.eng.compSorts[sc.comp])
+		name := "LOG_" + which + sc.suffix
+		log := fe.comp(st, name, fe.eng.compSorts[name])
+		st.heap[name] = fe.define(name, tStore(log, k, cur))
+	}
+}
+
+func (fe *FuncEnc) logSet(st *State, name string, k, v Term) {
+	log := fe.comp(st, name, fe.eng.compSorts[name])
+	st.heap[name] = fe.define(name, tStore(log, k, v))
+}
+
+func (fe *FuncEnc) monCall(f *Frame, callee *ssa.Function, name string, args []Term, st *State, path Term, pos token.Pos) ([]Term, bool) {
+	if name != evalFuncName || f.parent != nil {
+		return nil, false
+	}
+	con := fe.eng.contracts[name]
+	if con == nil {
+		return nil, false
+	}
+	k := fe.define("evk", fe.comp(st, "LOG_N", SInt))
+	fe.snapshot(st, "pre", k)
+	res := fe.callByContract(f, callee, name, con, args, st, path, pos)
+	fe.snapshot(st, "post", k)
+	fe.logSet(st, "LOG_kind", k, tInt(1))
+	fe.logSet(st, "LOG_child", k, args[1])
+	fe.logSet(st, "LOG_env", k, args[2])
+	fe.logSet(st, "LOG_repl", k, args[3])
+	fe.logSet(st, "LOG_val", k, res[0])
+	fe.logSet(st, "LOG_sig", k, res[1])
+	fe.logSet(st, "LOG_sigT", k, tSelect(fe.comp(st, "H_interpreter_ControlFlowSignal_Type", arrSort(SInt, SInt)), res[1]))
+	fe.logSet(st, "LOG_sigLine", k, tSelect(fe.comp(st, "H_interpreter_ControlFlowSignal_LineNumber", arrSort(SInt, SInt)), res[1]))
+	fe.logSet(st, "LOG_sigVal", k, tSelect(fe.comp(st, "H_interpreter_ControlFlowSignal_Value", arrSort(SInt, SVal)), res[1]))
+	st.heap["LOG_N"] = fe.define("LOG_N", tAdd(k, tInt(1)))
+	return res, true
+}
+
+func (fe *FuncEnc) monInvoke(f *Frame, iface, method string, recv Term, args []Term, st *State, path Term, pos token.Pos) ([]Term, bool) {
+	return nil, false
+}
+
+// invokeLogged wraps an interface-contract call of Callable.Call with the log update and the E1 obligation.
+func (fe *FuncEnc) invokeLogged(f *Frame, recv Term, args []Term, st *State, path Term, pos token.Pos, do func() []Term) []Term {
+	if f.mon == nil || f.parent != nil {
+		return do()
+	}
+	flag := fe.comp(st, "G_utils_HadRuntimeError", SBool)
+	fe.emit("effect.E1", fe.srcLabel(pos, "call"), path, tNot(flag), "C06: no function or built-in is invoked once a runtime error has been reported", pos)
+	fe.obls[len(fe.obls)-1].Props = []string{"C06"}
+	k := fe.define("evk", fe.comp(st, "LOG_N", SInt))
+	fe.snapshot(st, "pre", k)
+	res := do()
+	fe.snapshot(st, "post", k)
+	fe.logSet(st, "LOG_kind", k, tInt(2))
+	fe.logSet(st, "LOG_child", k, recv)
+	fe.logSet(st, "LOG_args", k, args[1])
+	fe.logSet(st, "LOG_val", k, res[0])
+	fe.logSet(st, "LOG_err", k, res[1])
+	st.heap["LOG_N"] = fe.define("LOG_N", tAdd(k, tInt(1)))
+	return res
+}
+
+// effectE2: a write to stdout by interpreter code must happen with the error flag down.
+func (fe *FuncEnc) effectE2(f *Frame, stubName string, st *State, path Term, pos token.Pos) {
+	if fe.fn == nil || fe.fn.Pkg == nil || fe.fn.Pkg.Pkg.Name() != "interpreter" {
+		return
+	}
+	if !strings.HasPrefix(stubName, "fmt.Print") {
+		return
+	}
+	if strings.Contains(fe.name, "NativeInputFn") {
+		// the prompt of ইনপুট is written by a built-in; E1 already forbids invoking it with the flag up
+		return
+	}
+	flag := fe.comp(st, "G_utils_HadRuntimeError", SBool)
+	fe.emit("effect.E2", fe.srcLabel(pos, "call"), path, tNot(flag), "C06: nothing is written to stdout once a runtime error has been reported", pos)
+	fe.obls[len(fe.obls)-1].Props = []string{"C06"}
+}
